@@ -50,7 +50,7 @@ pub fn dce(mut p: Prog, script: &mut Script) -> Prog {
         let nulls: BTreeSet<usize> = (0..n)
             .filter(|&i| {
                 matches!(p.nodes[i].op, Op::Null)
-                    && !matches!(p.nodes[p.nodes[i].ins[0].node].op, Op::Unzip | Op::State { .. } | Op::Partition { .. })
+                    && !matches!(p.nodes[p.nodes[i].ins[0].node].op, Op::Unzip | Op::State { .. } | Op::StateBy { .. } | Op::DemuxEnum | Op::Partition { .. })
             })
             .collect();
         if !nulls.is_empty() {
@@ -100,7 +100,8 @@ pub fn dce(mut p: Prog, script: &mut Script) -> Prog {
                 }
             }
             let fixed_outs = match p.nodes[i].op {
-                Op::Unzip | Op::State { .. } => 2,
+                Op::Unzip | Op::State { .. } | Op::StateBy { .. } => 2,
+                Op::DemuxEnum => 3,
                 Op::Partition { n, .. } => n,
                 _ => 0,
             };
